@@ -247,7 +247,31 @@ def c03(k, ctx):
                        "posterior reference: brute force over all codewords with log-sum-exp in f64 (harness oracle); tolerance in Trace_C03.tla"]
 
 
-PIPELINES = {"C03": c03, "C04": c04, "C05": c05, "C01": c01, "C10": c10, "C08": c08, "C11": c11, "C02": c02, "C09": c09, "C17": c17}
+def c18(k, ctx):
+    ctx.rule = ("Name cases: each of the 36 documented strings (parse, Display, clap value); Variants: clap's value list; NonMember: ~360 near-miss strings (case changes, "
+                "prefixes/suffixes, truncations, HL on arithmetics without a layered form, unicode, whitespace); Table: fingerprints of the 36 factory-built and the 48 directly "
+                "constructed generic decoders on a seeded family of (matrix, LLRs, limit) inputs that is checked to separate all 36 documented decoders; "
+                "non-trivial = distinct Name cases + distinct NonMember strings within edit distance 1 or case-equal to a name")
+    ctx.tlc_mc("MC_Factory")
+    ctx.vh("gen", "i2s")
+    recs, rej = ctx.validate("Trace_C18")
+    ctx.require_events("Name", "Variants", "NonMember", "Table")
+    names = {r["str"] for r in recs if r["e"] == "Name"}
+    low = {n.lower() for n in names}
+    for r in recs:
+        if r["e"] == "Name":
+            ctx.nontrivial_keys.add(k.key("N", r["str"]))
+        elif r["e"] == "NonMember" and (r["str"].lower() in low or r["str"][:-1] in names or r["str"].strip() in names or ("HL" + r["str"]) in names or r["str"][2:] in names):
+            ctx.nontrivial_keys.add(k.key("X", r["str"]))
+    t = [r for r in recs if r["e"] == "Table"][0]
+    ctx.extra["family_size"] = t["family"]
+    ctx.extra["unseparated_documented_pairs"] = t["unseparated_pairs"]
+    ctx.samples = [k.sample_case(recs, 30), k.sample_case(recs, 200), [{"e": "Table", "behave": t["behave"][:3], "direct": t["direct"][:3]}]]
+    ctx.assumptions = ["TLC 1.8 + Json/IOUtils", "the harness splits a name into (starts with HL, rest); the 36 strings and 24 type names are typed from the documentation, not read from the enum",
+                       "fingerprint = FNV-1a digest of the serialised results; equality of digests is taken as equality of behaviour on the family"]
+
+
+PIPELINES = {"C18": c18, "C03": c03, "C04": c04, "C05": c05, "C01": c01, "C10": c10, "C08": c08, "C11": c11, "C02": c02, "C09": c09, "C17": c17}
 NOT_YET = {}
 
 
